@@ -420,6 +420,21 @@ func genSpell(t *rapid.T) int64 {
 	return rapid.Int64Range(1, 1<<40).Draw(t, "spell")
 }
 
+// rowBoxes returns n pairwise different boxes of one zoom pair (a block of footprints, vertical index varying slowly).
+func rowBoxes(n int, h, v int64) []ref.Box {
+	out := make([]ref.Box, 0, n)
+	w := int64(1) << uint(h)
+	for i := 0; len(out) < n; i++ {
+		x, y := int64(i)%w, (int64(i)/w)%w
+		f := int64(i)/(w*w) - 2
+		out = append(out, ref.Box{H: h, X: x, Y: y, V: v, F: f})
+	}
+	return out
+}
+
+// roundSizes are list lengths at and next to powers of two (block / batch / pre-sized table boundaries).
+var roundSizes = []int{255, 256, 257, 1023, 1024, 1025, 2048, 4096, 4097}
+
 func jsonStr(v any) string {
 	b, _ := json.Marshal(v)
 	if len(b) > 400 {
